@@ -457,7 +457,8 @@ ThreeWiseAt(d, D, f) ==
 (* small-string inline-buffer thresholds (12/24/48 bytes including the     *)
 (* 2-byte prefix, i.e. 10/22/46 bytes of data)                              *)
 LenSmall == {0, 1, 127, 128, 65535}
-LenFull  == {0, 1, 10, 11, 12, 13, 22, 23, 24, 25, 46, 47, 48, 49, 127, 128, 16383, 16384, 65535}
+(* 35 and 43 are the codes of '#' and '+': a length whose prefix bytes LOOK like wildcard characters *)
+LenFull  == {0, 1, 10, 11, 12, 13, 22, 23, 24, 25, 35, 43, 46, 47, 48, 49, 127, 128, 8960, 16383, 16384, 65535}
 PayFull  == {0, 1, 15, 16, 31, 32, 127, 128, 255, 256, 16383, 16384, 65535, 65536, 2097152}
 PaySmall == {0, 1, 128, 16384}
 
@@ -517,6 +518,14 @@ PropLists(loc, L) ==
   \cup { AllAllowed(loc), Reverse(AllAllowed(loc)) }
   \cup { << OneVal(38), OneVal(38) >>, << OneVal(38), MkProp(38, N(0), St(75, 1), << >>), OneVal(38) >> }
   \cup (IF loc = "publish" THEN { << OneVal(11), MkProp(11, U32(0, 200), << >>, << >>), OneVal(35) >> } ELSE {})
+  \* PUBLISH property blocks of 125..127 bytes (and 128..130 with the 3-byte Topic Alias): the public rewrites that add /
+  \* remove the Topic Alias move them across the one-byte / two-byte Property Length boundary; the same at 16383 / 16384
+  \cup (IF loc = "publish"
+        THEN { << MkProp(38, N(0), St(107, 60), St(118, b)) >> : b \in {60, 61, 62} }
+             \cup { << MkProp(38, N(0), St(107, 60), St(118, b)), OneVal(35) >> : b \in {60, 61, 62} }
+             \cup { << MkProp(38, N(0), St(107, 8000), St(118, b)) >> : b \in {8376, 8377, 8378} }
+             \cup { << MkProp(38, N(0), St(107, 8000), St(118, b)), OneVal(35) >> : b \in {8376, 8377, 8378} }
+        ELSE {})
   \cup { << MkProp(38, N(0), St(107, a), St(118, b)) >> \o AllAllowed(loc) :   \* property length 127/128, 16383/16384
            a \in {0}, b \in {100, 16200} }
 PropListsSmall(loc) ==
